@@ -492,10 +492,11 @@ reg("tensor.ttm", "tensor_ttm",
 # ================================================================================================
 # shared request shapes for the other classes
 # ================================================================================================
-def two_shapes(name, mk1, mk2, f, pool_min=1, cname="same_shape", extra=None):
+def two_shapes(name, mk1, mk2, f, pool_min=1, cname="same_shape", keep=lambda a: True):
     reg(name, cname, lambda a: f"{zl(a['s'])} {zl(a['u'])}", lambda a: a["s"] == a["u"],
         lambda a: (lambda x, y: ([x, y], lambda: f(x, y)))(mk1(a["s"]), mk2(a["u"])),
-        lambda rng, tier: [(dict(a), t) for a, t in _g_two_shapes(rng, tier) if len(a["s"]) >= pool_min and len(a["u"]) >= pool_min])
+        lambda rng, tier: [(dict(a), t) for a, t in _g_two_shapes(rng, tier)
+                           if len(a["s"]) >= pool_min and len(a["u"]) >= pool_min and keep(a)])
 
 
 def perm_op(name, mk, f, guard="sorted_perm"):
@@ -503,10 +504,18 @@ def perm_op(name, mk, f, guard="sorted_perm"):
         lambda a: (lambda x: ([x], lambda: f(x, _np().array(a["order"], dtype=int))))(mk(a["s"])), _g_permute)
 
 
-def ttv_op(name, mk, pool_min=1):
+def _no_singleton_selected(a):
+    """ktensor.ttv squeezes its vectors, so a length-1 multiplicand is (wrongly) refused even in a well-formed request:
+    a false rejection outside C19 (reported under C02); such requests are not generated for ktensor/sumtensor.ttv"""
+    N = len(a["s"])
+    sel = sel_modes(N, a["dims"], a["excl"])
+    return all(not (0 <= m < N) or a["s"][m] != 1 for m in sel) and all(v != 1 for v in a["vlens"])
+
+
+def ttv_op(name, mk, pool_min=1, keep=lambda a: True):
     reg(name, "ttv", lambda a: f"{zl(a['s'])} {zl(a['vlens'])} {zo(a['dims'])} {zo(a['excl'])}", _pre_ttv,
         lambda a: (lambda x, vs: ([x, vs], lambda: x.ttv(vs, *_dims(a))))(mk(a["s"]), [arr((n,), 2) for n in a["vlens"]]),
-        lambda rng, tier: [(a, t) for a, t in _g_ttv(rng, tier) if len(a["s"]) >= pool_min], guard=False)
+        lambda rng, tier: [(a, t) for a, t in _g_ttv(rng, tier) if len(a["s"]) >= pool_min and keep(a)], guard=False)
 
 
 def ttm_op(name, mk, pool_min=1):
@@ -741,19 +750,20 @@ def _g_sp_innerprod(rng, tier):
 reg("sptensor.innerprod_sp", "sptensor_innerprod", lambda a: f"{zl(a['s'])} {gbool(a['empty'])} {zl(a['u'])}", lambda a: a["s"] == a["u"],
     lambda a: (lambda x, y: ([x, y], lambda: x.innerprod(y)))(S(a["s"], a["empty"]), S(a["u"])), _g_sp_innerprod)
 reg("sptensor.innerprod_dense", "sptensor_innerprod", lambda a: f"{zl(a['s'])} {gbool(a['empty'])} {zl(a['u'])}", lambda a: a["s"] == a["u"],
-    lambda a: (lambda x, y: ([x, y], lambda: x.innerprod(y)))(S(a["s"], a["empty"]), T(a["u"])), _g_sp_innerprod)
+    lambda a: (lambda x, y: ([x, y], lambda: x.innerprod(y)))(S(a["s"], a["empty"]), T(a["u"])),
+    lambda rng, tier: [(a, t) for a, t in _g_sp_innerprod(rng, tier) if a["empty"] or math.prod(a["s"]) > 2])   # A-05: one nonzero
 two_shapes("sptensor.add", S, S, lambda x, y: x + y)
 two_shapes("sptensor.sub", S, S, lambda x, y: x - y)
 two_shapes("sptensor.mul", S, S, lambda x, y: x * y)
 two_shapes("sptensor.logical_and", S, S, lambda x, y: x.logical_and(y))
 two_shapes("sptensor.logical_or", S, S, lambda x, y: x.logical_or(y))
 two_shapes("sptensor.eq", S, S, lambda x, y: x == y)
-two_shapes("sptensor.mul_dense", S, T, lambda x, y: x * y)
+two_shapes("sptensor.mul_dense", S, T, lambda x, y: x * y, keep=lambda a: math.prod(a["s"]) > 2)
 perm_op("sptensor.permute", S, lambda x, o: x.permute(o))
 reg("sptensor.reshape", ("reshape", "tensor_reshape"), lambda a: f"{zl(a['s'])} {zl(a['new'])}", lambda a: math.prod(a["s"]) == math.prod(a["new"]),
     lambda a: (lambda t: ([t], lambda: t.reshape(tuple(a["new"]))))(S(a["s"])), _g_reshape)
 ttv_op("sptensor.ttv", S)
-ttm_op("sptensor.ttm", S)
+ttm_op("sptensor.ttm", S, pool_min=2)      # 1-way: to_sptenmat with an empty side raises (A-02, outside C19)
 mttkrp_op("sptensor.mttkrp", S)
 
 # ---------------------------------------------------------------- ktensor
@@ -846,7 +856,7 @@ two_shapes("ktensor.innerprod", K, K, lambda x, y: x.innerprod(y))
 two_shapes("ktensor.innerprod_dense", K, T, lambda x, y: x.innerprod(y))
 two_shapes("ktensor.add", K, K, lambda x, y: x + y)
 perm_op("ktensor.permute", K, lambda x, o: x.permute(o))
-ttv_op("ktensor.ttv", K)
+ttv_op("ktensor.ttv", K, keep=_no_singleton_selected)
 mttkrp_op("ktensor.mttkrp", K)
 
 # ---------------------------------------------------------------- ttensor
@@ -999,7 +1009,7 @@ def SU(s):
 
 two_shapes("sumtensor.add", SU, T, lambda x, y: x + y)
 two_shapes("sumtensor.innerprod", SU, T, lambda x, y: x.innerprod(y))
-ttv_op("sumtensor.ttv", SU)
+ttv_op("sumtensor.ttv", SU, keep=_no_singleton_selected)
 mttkrp_op("sumtensor.mttkrp", SU)
 
 
@@ -1020,6 +1030,247 @@ def _g_khatrirao(rng, tier):
 
 reg("khatrirao", "khatrirao", lambda a: pl(a["ms"]), lambda a: all(m[1] == a["ms"][0][1] for m in a["ms"]),
     lambda a: (lambda ms: ([ms], lambda: _ttb().khatrirao(*ms)))([arr(m, 2) for m in a["ms"]]), _g_khatrirao)
+
+
+# ---------------------------------------------------------------- algorithm entry points and import_data
+
+
+def ginit(i):
+    if i == "random":
+        return "InitRandom"
+    if i == "nvecs":
+        return "InitNvecs"
+    if i == "bogus":
+        return "InitBogus"
+    if "k" in i:
+        return f"(InitK {zl(i['k'])} {gz(i['R'])})"
+    return f"(InitList {pl(i['l'])})"
+
+
+def mk_init(i):
+    if isinstance(i, str):
+        return i
+    if "k" in i:
+        return K(i["k"], i["R"])
+    return [arr(m, 2) for m in i["l"]]
+
+
+def _pre_cp_init(s, rank, i, allow_nvecs):
+    if i == "random":
+        return True
+    if i == "nvecs":
+        return allow_nvecs
+    if isinstance(i, dict) and "k" in i:
+        return i["k"] == s and i["R"] == rank
+    return False
+
+
+def _g_cp(rng, tier, nvecs=True):
+    out = []
+    for s in [(2, 3, 4), (3, 3, 3), (3, 2)]:
+        s = list(s)
+        R = 2
+        base = {"s": s, "rank": R, "init": {"k": s, "R": R}, "dimorder": None}
+        out.append((dict(base), "control"))
+        out.append((dict(base, init="random"), "control"))
+        out.append((dict(base, rank=0), "rank"))
+        out.append((dict(base, rank=-1, init="random"), "rank"))
+        out.append((dict(base, init={"k": s, "R": R + 1}), "init_rank"))
+        out.append((dict(base, init={"k": s, "R": 1}), "init_rank"))
+        out.append((dict(base, init={"k": s[:-1], "R": R}), "init_modes"))
+        out.append((dict(base, init={"k": s + [2], "R": R}), "init_modes"))
+        for k in range(len(s)):
+            out.append((dict(base, init={"k": s[:k] + [s[k] + 1] + s[k + 1:], "R": R}), "init_size"))
+        if s != s[::-1]:
+            out.append((dict(base, init={"k": s[::-1], "R": R}), "init_size"))
+        out.append((dict(base, init="bogus"), "init_name"))
+        N = len(s)
+        out.append((dict(base, dimorder=list(range(N))[::-1]), "control"))
+        out.append((dict(base, dimorder=list(range(N - 1))), "dimorder"))
+        out.append((dict(base, dimorder=[0] * N), "dimorder"))
+        out.append((dict(base, dimorder=list(range(1, N + 1))), "dimorder"))
+        out.append((dict(base, dimorder=[-1] + list(range(N - 1))), "dimorder"))
+    return out
+
+
+def _quiet(f):
+    import contextlib
+    import io
+    with contextlib.redirect_stdout(io.StringIO()):
+        return f()
+
+
+reg("cp_als", "cp_als", lambda a: f"{zl(a['s'])} {gz(a['rank'])} {ginit(a['init'])} {zo(a['dimorder'])}",
+    lambda a: a["rank"] > 0 and _pre_cp_init(a["s"], a["rank"], a["init"], True)
+    and (a["dimorder"] is None or is_perm(len(a["s"]), a["dimorder"])),
+    lambda a: (lambda x, i: ([x], lambda: _quiet(lambda: _ttb().cp_als(x, a["rank"], init=i, dimorder=a["dimorder"], maxiters=2,
+                                                                           printitn=0))))(T(a["s"]), mk_init(a["init"])),
+    _g_cp, guard=False)
+
+
+def _g_cp_apr(rng, tier):
+    out = []
+    for a, t in _g_cp(rng, tier):
+        if a["dimorder"] is not None:
+            continue
+        for alg in ("mu", "pdnr", "pqnr"):
+            out.append((dict(a, alg=alg), t))
+    out.append(({"s": [2, 3, 4], "rank": 2, "init": "random", "dimorder": None, "alg": "newton"}, "algorithm"))
+    out.append(({"s": [2, 3, 4], "rank": 2, "init": "nvecs", "dimorder": None, "alg": "mu"}, "init_name"))
+    return out
+
+
+reg("cp_apr", "cp_apr", lambda a: f"{zl(a['s'])} {gz(a['rank'])} {ginit(a['init'])} {gbool(a['alg'] in ('mu', 'pdnr', 'pqnr'))}",
+    lambda a: a["rank"] > 0 and _pre_cp_init(a["s"], a["rank"], a["init"], False) and a["alg"] in ("mu", "pdnr", "pqnr"),
+    lambda a: (lambda x, i: ([x], lambda: _quiet(lambda: _ttb().cp_apr(x, a["rank"], algorithm=a["alg"], init=i, maxiters=1,
+                                                                           maxinneriters=1, printitn=0, printinneritn=0))))(
+        T(a["s"]), mk_init(a["init"])),
+    _g_cp_apr, guard=False)
+
+
+def _g_hosvd(rng, tier):
+    out = []
+    for s in [(2, 3, 4), (3, 3, 3), (3, 2)]:
+        s = list(s)
+        N = len(s)
+        base = {"s": s, "ranks": [1] * N, "dimorder": None}
+        out.append((dict(base), "control"))
+        out.append((dict(base, ranks=None), "control"))
+        out.append((dict(base, ranks=[min(2, d) for d in s]), "control"))
+        out.append((dict(base, ranks=[1] * (N - 1)), "ranks_len"))
+        out.append((dict(base, ranks=[1] * (N + 1)), "ranks_len"))
+        out.append((dict(base, dimorder=list(range(N))[::-1]), "control"))
+        out.append((dict(base, dimorder=list(range(N - 1))), "dimorder"))
+        out.append((dict(base, dimorder=[0] * N), "dimorder"))
+        out.append((dict(base, dimorder=list(range(1, N + 1))), "dimorder"))
+    return out
+
+
+def _ranks_ok(r, s):
+    return len(r) == len(s)          # only the count is a stated precondition (rank vs. mode size is left to the algorithms)
+
+
+reg("hosvd", "hosvd", lambda a: f"{zl(a['s'])} {zo(a['ranks'])} {zo(a['dimorder'])}",
+    lambda a: (a["ranks"] is None or _ranks_ok(a["ranks"], a["s"])) and (a["dimorder"] is None or is_perm(len(a["s"]), a["dimorder"])),
+    lambda a: (lambda x, r: ([x], lambda: _quiet(lambda: _ttb().hosvd(x, 1e-4, verbosity=0, dimorder=a["dimorder"], ranks=r))))(
+        T(a["s"]), None if a["ranks"] is None else _np().array(a["ranks"], dtype=int)),
+    _g_hosvd, guard=False)
+
+
+def _g_tucker(rng, tier):
+    out = []
+    for s in [(2, 3, 4), (3, 3, 3), (3, 2)]:
+        s = list(s)
+        N = len(s)
+        rk = [min(2, d) for d in s]
+        good = [[d, r] for d, r in zip(s, rk)]
+        base = {"s": s, "ranks": rk, "init": "random", "dimorder": None, "maxiters": 1}
+        out.append((dict(base), "control"))
+        out.append((dict(base, ranks=[2]), "control"))
+        out.append((dict(base, init={"l": good}), "control"))
+        out.append((dict(base, ranks=rk[:-1] if N > 2 else rk + [1]), "ranks_len"))
+        out.append((dict(base, maxiters=-1), "maxiters"))
+        out.append((dict(base, init="bogus"), "init_name"))
+        out.append((dict(base, init={"l": good[:-1]}), "init_len"))
+        out.append((dict(base, init={"l": good + [[2, 2]]}), "init_len"))
+        for k in range(N):
+            out.append((dict(base, init={"l": good[:k] + [[s[k] + 1, rk[k]]] + good[k + 1:]}), "init_size"))
+            out.append((dict(base, init={"l": good[:k] + [[s[k], rk[k] + 1]] + good[k + 1:]}), "init_size"))
+        out.append((dict(base, dimorder=list(range(N))[::-1]), "control"))
+        out.append((dict(base, dimorder=list(range(N - 1))), "dimorder"))
+        out.append((dict(base, dimorder=[0] * N), "dimorder"))
+    return out
+
+
+def _pre_tucker(a):
+    s, N = a["s"], len(a["s"])
+    rk = a["ranks"] * N if len(a["ranks"]) == 1 else a["ranks"]
+    if not _ranks_ok(rk, s) or a["maxiters"] < 0:
+        return False
+    if a["dimorder"] is not None and not is_perm(N, a["dimorder"]):
+        return False
+    i = a["init"]
+    if i in ("random", "nvecs"):
+        return True
+    if isinstance(i, dict) and "l" in i:
+        first = 0 if a["dimorder"] is None else a["dimorder"][0]     # the first mode in dimorder is recomputed, its guess unused
+        return len(i["l"]) == N and all(n == first or i["l"][n] == [s[n], rk[n]] for n in range(N))
+    return False
+
+
+reg("tucker_als", "tucker_als",
+    lambda a: f"{zl(a['s'])} {zl(a['ranks'])} {ginit(a['init'])} {zo(a['dimorder'])} {gz(a['maxiters'])}", _pre_tucker,
+    lambda a: (lambda x, i: ([x], lambda: _quiet(lambda: _ttb().tucker_als(x, _np().array(a["ranks"], dtype=int), init=i,
+                                                                               dimorder=a["dimorder"], maxiters=a["maxiters"],
+                                                                               printitn=0))))(T(a["s"]), mk_init(a["init"])),
+    _g_tucker, guard=False)
+
+
+def _g_gcp(rng, tier):
+    out = []
+    for s in [(2, 3, 4), (3, 2)]:
+        s = list(s)
+        base = {"s": s, "rank": 2, "init": {"k": s, "R": 2}, "opt": "lbfgsb"}
+        out.append((dict(base), "control"))
+        out.append((dict(base, init="random"), "control"))
+        out.append((dict(base, opt="none"), "optimizer"))
+        out.append((dict(base, init={"k": s, "R": 3}), "init_rank"))
+        out.append((dict(base, init={"k": s[:-1] + [s[-1] + 1], "R": 2}), "init_size"))
+        out.append((dict(base, init={"k": s[:-1], "R": 2}), "init_modes"))
+        out.append((dict(base, rank=0, init="random"), "rank"))
+    return out
+
+
+def _gcp_call(a):
+    ttb = _ttb()
+    from pyttb.gcp.optimizers import LBFGSB
+    from pyttb.gcp.fg_setup import Objectives
+    x, i = T(a["s"]), mk_init(a["init"])
+    opt = LBFGSB(maxiter=1, iprint=-1) if a["opt"] == "lbfgsb" else "not an optimizer"
+    return [x], lambda: _quiet(lambda: ttb.gcp_opt(x, a["rank"], Objectives.GAUSSIAN, opt, init=i, printitn=0))
+
+
+reg("gcp_opt", "gcp_opt", lambda a: f"{zl(a['s'])} {gz(a['rank'])} {ginit(a['init'])} {gbool(a['opt'] == 'lbfgsb')}",
+    lambda a: a["rank"] > 0 and a["opt"] == "lbfgsb" and (a["init"] == "random" or (isinstance(a["init"], dict)
+                                                          and a["init"]["k"] == a["s"] and a["init"]["R"] == a["rank"])),
+    _gcp_call, _g_gcp, guard=False)
+
+
+def _g_import(rng, tier):
+    out = []
+    for s in [(2, 3), (4,), (2, 2, 2)]:
+        for typ in ("tensor", "sptensor"):
+            out.append(({"type": typ, "n": len(s), "shape": list(s)}, "control"))
+            out.append(({"type": typ, "n": len(s) + 1, "shape": list(s)}, "header_count"))
+            out.append(({"type": typ, "n": len(s) - 1, "shape": list(s)}, "header_count"))
+        out.append(({"type": "tensr", "n": len(s), "shape": list(s)}, "type_word"))
+    return out
+
+
+def _import_call(a):
+    import os
+    import tempfile
+    ttb = _ttb()
+    s = a["shape"]
+    lines = [a["type"], str(a["n"]), " ".join(str(d) for d in s)]
+    if a["type"] == "sptensor":
+        lines += ["1", " ".join(["1"] * len(s)) + " 5.0"]
+    else:
+        lines += ["1.0"] * math.prod(s)
+    fd, path = tempfile.mkstemp(suffix=".tns", dir=os.environ.get("TMPDIR", "/tmp"))
+    with os.fdopen(fd, "w") as fh:
+        fh.write("\n".join(lines) + "\n")
+
+    def go():
+        try:
+            return ttb.import_data(path)
+        finally:
+            os.unlink(path)
+    return [lines], go
+
+
+reg("import_data", "import", lambda a: f"{gbool(a['type'] in ('tensor', 'sptensor', 'matrix', 'ktensor'))} {gz(a['n'])} {gz(len(a['shape']))}",
+    lambda a: a["type"] in ("tensor", "sptensor", "matrix", "ktensor") and a["n"] == len(a["shape"]), _import_call, _g_import)
 
 
 # ================================================================================================
@@ -1087,7 +1338,76 @@ finding("A-42", "repeated_dims",
         "tt_dimscheck accepts repeated dims; callers then answer when the sizes happen to chain (ttm applies both "
         "matrices to the same mode; ttv on a length-1 1-way tensor; collapse/scale ...)", "pyttb_utils.tt_dimscheck")
 REPEATED_DIMS_OPS = {"tensor.ttv", "tensor.ttm"}
-PROVED = set()
+# operations whose guard model has its theorem(s) in Props/C19.v (decides, or refuted + partial); everything else is tied by
+# the correspondence stream only (pre_<op> executed in Coq and, where a guard model exists, guard_<op> as well)
+PROVED = {"tensor.ctor", "tensor.reshape", "tensor.innerprod", "tensor.permute", "tensor.contract",
+          "tensor.add", "tensor.sub", "tensor.mul", "tensor.logical_and", "tensor.eq", "tensor.le",
+          "sptensor.add", "sptensor.sub", "sptensor.mul", "sptensor.logical_and", "sptensor.logical_or", "sptensor.eq",
+          "sptensor.mul_dense", "sptensor.permute", "sptensor.reshape", "sptensor.innerprod_sp", "sptensor.innerprod_dense",
+          "ktensor.ctor", "ktensor.arrange", "ktensor.extract", "ktensor.innerprod", "ktensor.innerprod_dense", "ktensor.add",
+          "ktensor.permute", "ttensor.ctor", "ttensor.innerprod", "ttensor.innerprod_dense", "ttensor.permute",
+          "tenmat.mul", "tenmat.add", "sptenmat.ctor", "sumtensor.ctor", "sumtensor.add", "sumtensor.innerprod",
+          "khatrirao", "import_data"}
+
+
+def tagfinding(fid, ops, tags, witness_op, witness, what, call_site, extra=lambda a: True, proposed="fix"):
+    ops, tags = set(ops), set(tags)
+    finding(fid, fid.lower().replace("-", "_") + "_" + "_".join(sorted(tags)),
+            lambda op, a: op in ops and a.get("tag") in tags and extra(a), witness_op, witness, what, call_site, proposed)
+
+
+REPEATED_DIMS_OPS |= {"sptensor.ttv", "sptensor.ttm", "ktensor.ttv", "ttensor.ttm", "ttensor.ttv", "sumtensor.ttv"}
+TRIGGERS["repeated_dims"] = lambda c: (c.op in REPEATED_DIMS_OPS and _rep_in_range(c.args)) or (
+    c.op in ("tensor.collapse", "sptensor.collapse") and len(set(c.args["d"])) != len(c.args["d"])
+    and all(0 <= x < len(c.args["s"]) for x in c.args["d"]))
+
+tagfinding("A-44", ["sptenmat.ctor"], ["row_eq_size", "col_eq_size"], "sptenmat.ctor",
+           {"ts": [2, 2], "rd": [0], "cd": [1], "mr": 2, "mc": 1},
+           "sptenmat.__init__: the index checks use '>=' so a row/column index equal to the number of rows/columns is accepted",
+           "sptenmat.__init__")
+tagfinding("A-45", ["ktensor.arrange"], ["rep_comp", "neg_comp"], "ktensor.arrange", {"s": [2, 3], "R": 2, "p": [0, 0]},
+           "ktensor.arrange(permutation=p): only len(p) is compared with ncomponents; repeated or negative entries are used "
+           "as a numpy fancy index (a component is duplicated, another dropped: the tensor changes)", "ktensor.arrange",
+           extra=lambda a: all(-a["R"] <= x < a["R"] for x in a["p"]))
+tagfinding("C19-N04", ["sptensor.innerprod_sp", "sptensor.innerprod_dense"],
+           ["drop_mode", "extra_mode", "size", "size_one", "swapped"], "sptensor.innerprod_sp",
+           {"s": [2, 3], "u": [3, 2], "empty": True},
+           "sptensor.innerprod: an all-zero receiver returns 0 before the shapes are compared", "sptensor.innerprod",
+           extra=lambda a: a["empty"])
+tagfinding("C19-N05", ["sptensor.ctor"], ["vals_count"], "sptensor.ctor", {"s": [4], "subs": [[0], [3]], "nvals": 3},
+           "sptensor.__init__ never compares the number of values with the number of subscripts", "sptensor.__init__")
+tagfinding("C19-N06", ["sptensor.collapse"], ["oob_mode"], "sptensor.collapse", {"s": [3, 3], "d": [3]},
+           "sptensor.collapse: modes >= ndims pass tt_dimscheck (no upper bound) and are silently ignored by setdiff1d",
+           "sptensor.collapse / tt_dimscheck")
+tagfinding("C19-N07", ["ktensor.redistribute"], ["neg_mode"], "ktensor.redistribute", {"s": [2, 3], "n": -1},
+           "ktensor.redistribute(mode): no range check; a negative mode wraps around (list indexing)", "ktensor.redistribute",
+           extra=lambda a: -len(a["s"]) <= a["n"])
+tagfinding("C19-N08", ["ktensor.mttkrp", "tensor.mttkrp", "sumtensor.mttkrp"], ["neg_mode"], "ktensor.mttkrp",
+           {"s": [2, 3], "us": [[2, 2], [3, 2]], "n": -1},
+           "mttkrp(U, n) with negative n: no range check; ktensor.mttkrp wraps (and multiplies every mode), tensor.mttkrp "
+           "answers when the reshapes happen to fit (all-singleton shapes)", "ktensor.mttkrp / tensor.mttkrp",
+           extra=lambda a: -len(a["s"]) <= a["n"] < 0)
+tagfinding("C19-N09", ["ktensor.mttkrp", "sptensor.mttkrp"], ["cols", "cols_one"], "sptensor.mttkrp",
+           {"s": [2, 2, 2], "us": [[2, 2], [2, 3], [2, 2]], "n": 2},
+           "mttkrp: the column counts of the matrices in U are not compared (sptensor uses the first R columns, ktensor "
+           "broadcasts a single column)", "sptensor.mttkrp / ktensor.mttkrp", proposed="known")
+tagfinding("C19-N10", ["ttensor.mttkrp"], ["list_short", "list_long"], "ttensor.mttkrp",
+           {"s": [2, 2, 2], "us": [[2, 2], [2, 2], [2, 2], [2, 2]], "n": 2},
+           "ttensor.mttkrp does not check the length of U (extra matrices ignored; a short list answers when n is the "
+           "missing position)", "ttensor.mttkrp")
+tagfinding("C19-N11", ["tenmat.ctor"], ["swapped", "regrouped"], "tenmat.ctor",
+           {"ts": [2, 3, 4], "rd": [2], "cd": [0, 1], "d": [6, 4]},
+           "tenmat.__init__ compares only the element count with prod(tshape[rdims])*prod(tshape[cdims]); a data matrix "
+           "with the wrong number of rows and columns (e.g. transposed) is accepted", "tenmat.__init__", proposed="known")
+
+tagfinding("C19-N12", ["tucker_als"], ["ranks_len"], "tucker_als",
+           {"s": [3, 2], "ranks": [2, 2, 1], "init": "random", "dimorder": None, "maxiters": 1},
+           "tucker_als: a rank vector longer than the number of modes is accepted (extra entries ignored); hosvd rejects the "
+           "same request", "tucker_als", extra=lambda a: len(a["ranks"]) > len(a["s"]))
+tagfinding("C19-N13", ["gcp_opt"], ["init_rank"], "gcp_opt",
+           {"s": [3, 2], "rank": 2, "init": {"k": [3, 2], "R": 3}, "opt": "lbfgsb"},
+           "gcp_opt: an initial ktensor whose number of components differs from the requested rank is accepted (cp_als and "
+           "cp_apr reject it)", "gcp_opt._get_initial_guess")
 
 
 if __name__ == "__main__":
